@@ -255,6 +255,7 @@ type b09Run struct {
 type b09Extra struct {
 	withSCI []*descriptorpb.FileDescriptorProto // form q
 	linked  []*descriptorpb.FileDescriptorProto // form P (outputs of a previous compilation)
+	hand    []*descriptorpb.FileDescriptorProto // form H (form P with the propagated map key/value features stripped)
 	lfiles  []linker.File                       // form L
 	dfiles  []protoreflect.FileDescriptor       // form D
 }
@@ -284,6 +285,8 @@ func (ws *b09WS) compile(asg string, mode protocompile.SourceInfoMode, ex *b09Ex
 			return protocompile.SearchResult{ParseResult: ws.noast[i]}, nil
 		case 'P':
 			return protocompile.SearchResult{Proto: ex.linked[i]}, nil
+		case 'H':
+			return protocompile.SearchResult{Proto: ex.hand[i]}, nil
 		case 'L':
 			return protocompile.SearchResult{Desc: ex.lfiles[i]}, nil
 		case 'D':
@@ -325,6 +328,9 @@ func (ws *b09WS) extraSnap(k int, e *b09Extra) []string {
 		}
 		if e.linked != nil {
 			out = append(out, fmt.Sprintf("P%d.%d:%s", k, i, b09Digest(b09Marshal(e.linked[i]))))
+		}
+		if e.hand != nil {
+			out = append(out, fmt.Sprintf("H%d.%d:%s", k, i, b09Digest(b09Marshal(e.hand[i]))))
 		}
 		if e.lfiles != nil {
 			full, _ := b09FileDigests(e.lfiles[i])
@@ -594,6 +600,8 @@ func (e *b09Engine) formsOp(kind string, w []string) string {
 	exSnap0 := make([][]string, len(modes))
 	snap0 := ws.snapshots()
 	var stdRef *b09Run
+	var aliasMu sync.Mutex
+	var X []string // supplied protos that a result shares memory with
 	for mi, mode := range modes {
 		ref := ws.compile(strings.Repeat("s", n), mode, nil, 0)
 		if ref.err != nil {
@@ -625,8 +633,13 @@ func (e *b09Engine) formsOp(kind string, w []string) string {
 				}
 				ex.withSCI = append(ex.withSCI, q)
 			}
-			if kind == "relink" || kind == "relinkd" {
+			if kind == "relink" || kind == "relinkd" || kind == "forms" {
+				// form P: the output of a previous compilation; form H: the same with the
+				// features that were propagated to synthetic map key/value fields removed again
 				ex.linked = append(ex.linked, proto.Clone(fdp).(*descriptorpb.FileDescriptorProto))
+				ex.hand = append(ex.hand, b09StripPropagated(fdp))
+			}
+			if kind == "relink" || kind == "relinkd" {
 				ex.lfiles = append(ex.lfiles, f)
 			}
 			if mi == 0 && kind != "relink" && kind != "relinkd" {
@@ -640,7 +653,7 @@ func (e *b09Engine) formsOp(kind string, w []string) string {
 		case "noast":
 			alpha = "sn"
 		case "relink":
-			alpha = "PL"
+			alpha = "PHL"
 		case "relinkd":
 			alpha = "PD"
 			// form D: descriptors built by protobuf-go from the output protos
@@ -668,6 +681,9 @@ func (e *b09Engine) formsOp(kind string, w []string) string {
 		if asgs == nil {
 			return "bad-op"
 		}
+		if kind == "forms" {
+			asgs = append(asgs, b09LinkedAssignments(n)...)
+		}
 		exSnap0[mi] = ws.extraSnap(mi, ex)
 		if kind == "relink" || kind == "relinkd" {
 			// a file supplied as an already linked descriptor (L, D) brings its own dependencies:
@@ -676,7 +692,7 @@ func (e *b09Engine) formsOp(kind string, w []string) string {
 			for _, a := range asgs {
 				ok := true
 				for i := range ws.paths {
-					if a[i] == 'P' {
+					if a[i] == 'P' || a[i] == 'H' {
 						continue
 					}
 					for _, d := range ws.bare[i].Dependency {
@@ -706,6 +722,7 @@ func (e *b09Engine) formsOp(kind string, w []string) string {
 		for _, a := range asgs {
 			run := ws.compile(a, mode, ex, 0)
 			A = append(A, a+":"+b09RunDigests(run))
+			ws.aliases(a, ex, run, &aliasMu, &X)
 			if (kind == "relink" || kind == "relinkd") && mi == 0 && a == strings.Repeat("P", n) {
 				if run.err != nil {
 					return "relink-rejected " + b09ErrClass(run.err)
@@ -727,6 +744,12 @@ func (e *b09Engine) formsOp(kind string, w []string) string {
 		conc := asgs
 		if len(conc) > 16 {
 			conc = conc[:16]
+			if kind == "forms" {
+				conc = append(conc[:10:10], b09LinkedAssignments(n)...)
+				if len(conc) > 18 {
+					conc = conc[:18]
+				}
+			}
 		}
 		cres := make([]string, len(conc))
 		var wg sync.WaitGroup
@@ -739,7 +762,9 @@ func (e *b09Engine) formsOp(kind string, w []string) string {
 						cres[k] = a + ":ERR"
 					}
 				}()
-				cres[k] = a + ":" + b09RunDigests(ws.compile(a, mode, ex, 2))
+				run := ws.compile(a, mode, ex, 2)
+				cres[k] = a + ":" + b09RunDigests(run)
+				ws.aliases(a, ex, run, &aliasMu, &X)
 			}(k, a)
 		}
 		wg.Wait()
@@ -771,7 +796,93 @@ func (e *b09Engine) formsOp(kind string, w []string) string {
 	if len(errs) > 0 {
 		errNote = " err=" + strings.Join(errs, " || ")
 	}
-	return "ok " + strings.Join(proj, " ") + " ~ " + strings.Join(sections, " ") + " S=" + strings.Join(S, ",") + errNote
+	sort.Strings(X)
+	if len(X) > 4 {
+		X = X[:4]
+	}
+	return "ok " + strings.Join(proj, " ") + " ~ " + strings.Join(sections, " ") + " S=" + strings.Join(S, ",") + " X=" + b09Dash(strings.Join(X, ",")) + errNote
+}
+
+// aliases records every file that was supplied as a descriptor proto and whose compilation
+// result (its FileDescriptorProto) shares mutable memory with the supplied object: the
+// compiler must work on a defensive copy, never link the resolver's object in place.
+func (ws *b09WS) aliases(asg string, ex *b09Extra, run b09Run, mu *sync.Mutex, out *[]string) {
+	if run.err != nil {
+		return
+	}
+	for i, f := range run.files {
+		if f == nil || i >= len(asg) {
+			continue
+		}
+		var sup *descriptorpb.FileDescriptorProto
+		switch asg[i] {
+		case 'p':
+			sup = ws.bare[i]
+		case 'q':
+			sup = ex.withSCI[i]
+		case 'P':
+			sup = ex.linked[i]
+		case 'H':
+			sup = ex.hand[i]
+		default:
+			continue
+		}
+		var at []string
+		b09SharedMem(reflect.ValueOf(sup), reflect.ValueOf(protoutil.ProtoFromFileDescriptor(f)), "fd", &at)
+		if len(at) > 0 {
+			mu.Lock()
+			*out = append(*out, fmt.Sprintf("%s:%d:%s", asg, i, at[0]))
+			mu.Unlock()
+		}
+	}
+}
+
+// b09LinkedAssignments: the assignments that use already-linked protos (P) and their
+// hand-stripped variants (H): uniform, and one file at a time among source files.
+func b09LinkedAssignments(n int) []string {
+	out := []string{strings.Repeat("P", n), strings.Repeat("H", n)}
+	if n > 1 {
+		for i := 0; i < n; i++ {
+			for _, c := range []byte{'P', 'H'} {
+				a := []byte(strings.Repeat("s", n))
+				a[i] = c
+				out = append(out, string(a))
+				b := []byte(strings.Repeat("P", n))
+				if c == 'H' {
+					b[i] = 'H'
+					out = append(out, string(b))
+				}
+			}
+		}
+	}
+	return out
+}
+
+// b09StripPropagated returns a copy of a linked descriptor proto in which the features that
+// option interpretation copied from map fields onto the synthetic key/value fields are
+// removed again (the compiler re-derives them: the result must not change).
+func b09StripPropagated(fd *descriptorpb.FileDescriptorProto) *descriptorpb.FileDescriptorProto {
+	c := proto.Clone(fd).(*descriptorpb.FileDescriptorProto)
+	var walk func(m *descriptorpb.DescriptorProto)
+	walk = func(m *descriptorpb.DescriptorProto) {
+		if m.GetOptions().GetMapEntry() {
+			for _, f := range m.Field {
+				if f.Options != nil && f.Options.Features != nil {
+					f.Options.Features = nil
+					if proto.Size(f.Options) == 0 {
+						f.Options = nil
+					}
+				}
+			}
+		}
+		for _, n := range m.NestedType {
+			walk(n)
+		}
+	}
+	for _, m := range c.MessageType {
+		walk(m)
+	}
+	return c
 }
 
 // ---------------------------------------------------------------- clone
@@ -1573,6 +1684,100 @@ func b09SmallDomain() [][]*b09N {
 	return out
 }
 
+// b09FeatureFamily: constructs for which the linker / options interpreter synthesises or
+// copies something into the descriptor, centred on editions features (map fields whose
+// features are propagated to the synthetic key/value fields, file/message/enum level
+// defaults, features on ordinary fields, extensions and oneof members), plus packed /
+// default / json_name in every syntax that allows them. Candidates the real compiler does
+// not accept from source are dropped silently by the caller.
+func b09FeatureFamily() [][]*b09N {
+	var out [][]*b09N
+	one := func(fs ...*b09N) { out = append(out, fs) }
+	enumE := func() *b09N {
+		return &b09N{K: 'N', A: []string{"E"}, Body: []*b09N{{K: 'V', A: []string{"Z", "0"}}, {K: 'V', A: []string{"Y", "1"}}}}
+	}
+	mapf := func(k, v, name string, num int, json string, opts ...string) *b09N {
+		return &b09N{K: 'm', A: []string{k, v, name, strconv.Itoa(num), json}, Opts: opts}
+	}
+	fld := func(lbl, typ, name string, num int, opts ...string) *b09N {
+		return &b09N{K: 'f', A: []string{lbl, typ, name, strconv.Itoa(num), "-"}, Opts: opts}
+	}
+	kvs := [][2]string{{"string", "string"}, {"string", "int32"}, {"int32", "string"}, {"string", "E"}, {"string", "A"}, {"int64", "bytes"}, {"bool", ".p.A.B"}, {"sfixed32", "double"}}
+	feats := [][]string{
+		{"features.utf8_validation = NONE"},
+		{"features.repeated_field_encoding = EXPANDED"},
+		{"features.utf8_validation = NONE", "features.repeated_field_encoding = EXPANDED"},
+		{"features.utf8_validation = VERIFY", "deprecated = true"},
+		{"features.message_encoding = DELIMITED"},
+		{"features.message_encoding = LENGTH_PREFIXED"},
+		{"features.repeated_field_encoding = PACKED"},
+	}
+	for _, kv := range kvs {
+		for _, ft := range feats {
+			one(b09File("a.proto", "e", "p", b09Msg("A", b09Msg("B"), mapf(kv[0], kv[1], "m_a", 1, "-", ft...),
+				fld("n", "int32", "x", 2)), enumE()))
+		}
+		// two maps, one with features and a JSON name, nested message, second file importing
+		one(b09File("a.proto", "e", "p", b09Msg("A", b09Msg("B", mapf(kv[0], kv[1], "inner", 1, "JI", "features.repeated_field_encoding = EXPANDED")),
+			mapf(kv[0], kv[1], "m1", 1, "-"), mapf("string", "string", "m2", 2, "-", "features.utf8_validation = NONE")), enumE()),
+			b09File("b.proto", "e", "q", b09Leaf('I', "a.proto"), b09Msg("C", mapf("string", "p.A", "ma", 1, "-", "features.utf8_validation = NONE"),
+				mapf("int32", "p.E", "me", 2, "-", "features.repeated_field_encoding = EXPANDED"))))
+	}
+	body := func() []*b09N {
+		return []*b09N{
+			b09Msg("A", b09Msg("B"),
+				mapf("string", "string", "m", 1, "-"), mapf("int32", "A", "n", 2, "-"), mapf("string", "E", "me", 9, "-"),
+				fld("r", "int32", "ri", 3), fld("n", "string", "s", 4), fld("n", "A", "a", 5), fld("n", "E", "e", 6), fld("r", "E", "re", 10),
+				&b09N{K: 'O', A: []string{"o"}, Body: []*b09N{fld("n", "string", "os", 7), fld("n", "B", "ob", 8)}},
+				&b09N{K: 'r', A: []string{"1", "100", "199"}}),
+			enumE(),
+			&b09N{K: 'X', A: []string{"A"}, Body: []*b09N{fld("n", "string", "xs", 100), fld("r", "int32", "xr", 101), fld("n", "A", "xa", 102)}},
+		}
+	}
+	for _, fo := range []string{"features.utf8_validation = NONE", "features.repeated_field_encoding = EXPANDED", "features.field_presence = IMPLICIT",
+		"features.field_presence = LEGACY_REQUIRED", "features.message_encoding = DELIMITED", "features.enum_type = CLOSED", "features.json_format = LEGACY_BEST_EFFORT"} {
+		one(b09File("a.proto", "e", "p", append([]*b09N{b09Leaf('o', fo)}, body()...)...))
+		// message- and enum-level
+		b := body()
+		b[0].Body = append([]*b09N{b09Leaf('o', fo)}, b[0].Body...)
+		one(b09File("a.proto", "e", "p", b...))
+		b = body()
+		b[1].Body = append([]*b09N{b09Leaf('o', fo)}, b[1].Body...)
+		one(b09File("a.proto", "e", "p", b...))
+	}
+	// features on ordinary fields, extensions and oneof members
+	for _, c := range []struct{ lbl, typ, opt string }{
+		{"r", "int32", "features.repeated_field_encoding = EXPANDED"}, {"r", "int32", "features.repeated_field_encoding = PACKED"},
+		{"r", "E", "features.repeated_field_encoding = EXPANDED"}, {"n", "string", "features.utf8_validation = NONE"},
+		{"r", "string", "features.utf8_validation = NONE"}, {"n", "A", "features.message_encoding = DELIMITED"},
+		{"r", "A", "features.message_encoding = DELIMITED"}, {"n", "int32", "features.field_presence = IMPLICIT"},
+		{"n", "int32", "features.field_presence = EXPLICIT"}, {"n", "int32", "features.field_presence = LEGACY_REQUIRED"},
+		{"n", "A", "features.field_presence = LEGACY_REQUIRED"}, {"n", "E", "features.field_presence = IMPLICIT"},
+		{"n", "int32", "default = 5"}, {"n", "string", `default = "x"`}, {"n", "E", "default = Y"},
+	} {
+		one(b09File("a.proto", "e", "p", b09Msg("A", fld(c.lbl, c.typ, "f", 1, c.opt), &b09N{K: 'r', A: []string{"1", "100", "199"}}), enumE()))
+		one(b09File("a.proto", "e", "p", b09Msg("A", &b09N{K: 'r', A: []string{"1", "100", "199"}}), enumE(),
+			&b09N{K: 'X', A: []string{"A"}, Body: []*b09N{fld(c.lbl, c.typ, "xf", 100, c.opt)}}))
+		if c.lbl == "n" {
+			one(b09File("a.proto", "e", "p", b09Msg("A", &b09N{K: 'O', A: []string{"o"}, Body: []*b09N{fld("n", c.typ, "of", 1, c.opt), fld("n", "int32", "og", 2)}}), enumE()))
+		}
+	}
+	// packed / json_name / defaults on maps and repeated fields in every syntax
+	for _, syn := range []string{"2", "3", "e"} {
+		lbl := "o"
+		if syn != "2" {
+			lbl = "n"
+		}
+		for _, pk := range []string{"packed = true", "packed = false"} {
+			one(b09File("a.proto", syn, "p", b09Msg("A", fld("r", "int32", "ri", 1, pk), fld("r", "E", "re", 2, pk), fld("r", "double", "rd", 3)), enumE()))
+		}
+		one(b09File("a.proto", syn, "p", b09Msg("A", mapf("string", "A", "m_x", 1, "JMX", "deprecated = true"), mapf("int32", "E", "m_y", 2, "-"),
+			&b09N{K: 'f', A: []string{lbl, "A", "self_ref", "3", "JS"}}), enumE()))
+		one(b09File("a.proto", syn, "p", b09Msg("A", fld(lbl, "int32", "d", 1, "default = 7"), fld(lbl, "E", "de", 2, "default = Y")), enumE()))
+	}
+	return out
+}
+
 func b09Modes(tier string, i int) string {
 	if tier == "thorough" {
 		return "0,1,2,4,6"
@@ -1596,6 +1801,11 @@ func (e *b09Engine) Gen(r *Rand, tier string) [][]string {
 		} else {
 			// a hand-made workspace that the compiler rejects is a generator bug: surface it
 			add(e.name + "-small-domain-rejected " + ws[len(ws)-1].A[0] + " " + b09EncodeWS(ws))
+		}
+	}
+	for _, ws := range b09FeatureFamily() {
+		if b09Accepted(ws) {
+			wss = append(wss, ws)
 		}
 	}
 	nSmall := len(wss)
